@@ -16,7 +16,7 @@ pub fn meta() -> PropertyMeta {
     PropertyMeta {
         id: "C08",
         level: "exploration",
-        rule: "decimal literals for f32 and f64: (i) random 1..40-digit strings with exponents -420..420, (ii) exact decimal expansions of the midpoint between adjacent floats for boundary (zero, subnormal edge, powers of two, MAX, all-ones mantissa) and random bit patterns, and that expansion nudged one unit up/down in its last place, (iii) shortest and 17-digit renderings of random floats, all in NRf spellings; float keywords in short/long form x case and near misses; boolean words and decimal literals around 0 and 0.5; the full matrix of 20 target types x 7 element kinds. Oracle: Rust std str::parse (correctly rounded) compared bit for bit; exact decimal rounding for booleans; documented accept lists for the matrix. Non-trivial: a halfway or >= 17-digit literal, a literal in the subnormal or overflow range, a boolean spelled other than 0/1/ON/OFF, or an off-diagonal matrix cell.",
+        rule: "decimal literals for f32 and f64: (i) random 1..40-digit strings with exponents -420..420, (ii) exact decimal expansions of the midpoint between adjacent floats for boundary (zero, subnormal edge, powers of two, MAX, all-ones mantissa) and random bit patterns, and that expansion nudged one unit up/down in its last place, (iii) shortest and 17-digit renderings of random floats, all in NRf spellings; float keywords in short/long form x case and near misses; boolean words and decimal literals around 0 and 0.5; the full matrix of 20 target types x 7 element kinds. Oracle: Rust std str::parse (correctly rounded) compared bit for bit; exact decimal rounding for booleans; documented accept lists for the matrix. Added: midpoints cut to 6..30 significant digits (just below / above), in plain unsigned notation at moderate magnitudes; short literals (<= 19 digits, small or no exponent); exponent fields at the limits of 32/64-bit arithmetic; EVERY letter string up to 5 (6) characters as a character datum of bool / f32 / f64; libFuzzer target c08_dec (thorough). Non-trivial: a halfway or >= 17-digit literal, a literal in the subnormal or overflow range, a boolean spelled other than 0/1/ON/OFF, or an off-diagonal matrix cell.",
         assumptions: &[
             "Rust std float parsing is correctly rounded (trusted reference)",
             "a boolean whose magnitude exceeds isize may answer true or -222",
